@@ -346,10 +346,28 @@ theorem xdma_extends (cfg : List Streamer) (op : XdmaOp) (f : Field) (d : Den)
     (h : streamMeaning cfg op.s f = some d) : xdmaMeaning cfg op f = some d := by
   cases f <;> simp_all [xdmaMeaning, streamMeaning]
 
-theorem aluVals_aligned (cfg : List Streamer) (op : StreamOp) (vs : List Val)
-    (h : aluVals cfg op = .ok vs) : Aligned (aluMeaning cfg op) (aluFields cfg) vs := by
+/-- The ALU loop count is the number of temporal steps of stream 0: always with FC08c; on the unrepaired tree
+when the pattern has exactly one loop. -/
+theorem firstBound_steps (v : Variant) (op : StreamOp) (lb : Int) (p : Pattern) (h : firstBound v op = .ok lb)
+    (hp : op.pats[0]? = some p) (hok : v.loopAllDims = true ∨ p.dims.length = 1) :
+    lb = prodI (p.dims.map (·.1)) := by
+  unfold firstBound at h
+  simp only [hp] at h
+  by_cases hv : v.loopAllDims = true
+  · simp only [hv, if_true] at h
+    injection h with h; exact h.symm
+  · simp only [hv] at h
+    rcases hok with hok | hok
+    · exact absurd hok hv
+    · match hd : p.dims, hok with
+      | [d], _ => simp [hd] at h; subst h; simp [prodI]
+
+theorem aluVals_aligned (v : Variant) (cfg : List Streamer) (op : StreamOp) (vs : List Val)
+    (h : aluVals v cfg op = .ok vs)
+    (hok : v.loopAllDims = true ∨ ∀ p, op.pats[0]? = some p → p.dims.length = 1) :
+    Aligned (aluMeaning cfg op) (aluFields cfg) vs := by
   unfold aluVals at h
-  cases hb : firstBound op with
+  cases hb : firstBound v op with
   | error e => simp [hb] at h
   | ok lb =>
     cases hs : streamerVals cfg op with
@@ -360,21 +378,17 @@ theorem aluVals_aligned (cfg : List Streamer) (op : StreamOp) (vs : List Val)
       subst h
       unfold aluFields
       refine Aligned.append ((streamerVals_aligned cfg op sv hs).mono (alu_extends cfg op)) ?_
-      unfold firstBound at hb
       cases hp : op.pats[0]? with
-      | none => simp [hp] at hb
+      | none => unfold firstBound at hb; simp [hp] at hb
       | some p =>
-        cases hd : p.dims[0]? with
-        | none => simp [hp, hd] at hb
-        | some d =>
-          simp [hp, hd] at hb
-          subst hb
-          apply aligned_of_get _ _ rfl
-          intro i f v hf hv
-          match i with
-          | 0 => simp at hf hv; subst hf hv; rfl
-          | 1 => simp at hf hv; subst hf hv; simp [aluMeaning, hp, hd]; rfl
-          | (k + 2) => simp at hf
+        have hlb := firstBound_steps v op lb p hb hp (hok.imp id (fun h => h p hp))
+        subst hlb
+        apply aligned_of_get _ _ rfl
+        intro i f v hf hv
+        match i with
+        | 0 => simp at hf hv; subst hf hv; rfl
+        | 1 => simp at hf hv; subst hf hv; simp [aluMeaning, hp]; rfl
+        | (k + 2) => simp at hf
 
 theorem gemmxTail_aligned (cfg : List Streamer) (op : StreamOp) (n : Nat) (P : GParams)
     (hs : P.shifts.length = ceil4 n) (hm : P.mults.length = n) :
@@ -416,36 +430,54 @@ theorem gemmxVals_aligned (v : Variant) (cfg : List Streamer) (n : Nat) (op : Ge
 
 /-! ### snax_xdma -/
 
-theorem ext_aligned (cfg : List Streamer) (op : XdmaOp) (idx : Nat) (e : Ext) (hgen : op.kernel ≠ .notGeneric) :
-    Aligned (xdmaMeaning cfg op) ((List.range (csrLen e)).map (Field.extCsr idx e)) (extVals op.kernel e) := by
-  unfold extVals
-  simp only [hgen, if_false]
-  by_cases hmt : extMatches op.kernel e = true
-  · simp only [hmt, if_true]
-    have hl : (csrValues op.kernel).length = csrLen e := by
-      cases e <;> cases hk : op.kernel <;> simp_all [extMatches, csrValues, csrLen]
-    have := idx_map_aligned (m := xdmaMeaning cfg op) (csrValues op.kernel) (Field.extCsr idx e) Val.c
-    rw [hl] at this
-    apply this
-    intro i a ha
-    have hlt : i < csrLen e := by
-      obtain ⟨h1, _⟩ := List.getElem?_eq_some_iff.mp ha; omega
-    simp [xdmaMeaning, hlt, hgen, hmt, List.getD_eq_getElem?_getD, ha]
-    rfl
-  · simp only [hmt]
+theorem ext_aligned (v : Variant) (cfg : List Streamer) (op : XdmaOp) (idx : Nat) (e : Ext)
+    (hgen : v.extCsrLen = true ∨ op.kernel ≠ .notGeneric) :
+    Aligned (xdmaMeaning cfg op) ((List.range (csrLen e)).map (Field.extCsr idx e)) (extVals v op.kernel e) := by
+  -- the all-zero case (kernel absent or not the extension's kernel)
+  have zeros : (op.kernel = .notGeneric ∨ extMatches op.kernel e ≠ true) →
+      Aligned (xdmaMeaning cfg op) ((List.range (csrLen e)).map (Field.extCsr idx e))
+        (List.replicate (csrLen e) (.c 0)) := by
+    intro hz
     have := idx_map_aligned (m := xdmaMeaning cfg op) (List.replicate (csrLen e) (0 : Int)) (Field.extCsr idx e) Val.c
     simp only [List.length_replicate, List.map_replicate] at this
     apply this
     intro i a ha
     rw [List.getElem?_replicate] at ha
     split at ha
-    · next hlt => simp at ha; subst ha; simp [xdmaMeaning, hlt, hmt]; rfl
+    · next hlt =>
+      simp at ha; subst ha
+      rcases hz with hz | hz
+      · simp [xdmaMeaning, hlt, hz]; rfl
+      · simp [xdmaMeaning, hlt, hz]; rfl
     · simp at ha
+  unfold extVals
+  by_cases hk : op.kernel = .notGeneric
+  · rcases hgen with hgen | hgen
+    · simp only [hk, if_true, hgen]
+      exact zeros (Or.inl hk)
+    · exact absurd hk hgen
+  · simp only [hk, if_false]
+    by_cases hmt : extMatches op.kernel e = true
+    · simp only [hmt, if_true]
+      have hl : (csrValues op.kernel).length = csrLen e := by
+        cases e <;> cases hk' : op.kernel <;> simp_all [extMatches, csrValues, csrLen]
+      have := idx_map_aligned (m := xdmaMeaning cfg op) (csrValues op.kernel) (Field.extCsr idx e) Val.c
+      rw [hl] at this
+      apply this
+      intro i a ha
+      have hlt : i < csrLen e := by
+        obtain ⟨h1, _⟩ := List.getElem?_eq_some_iff.mp ha; omega
+      simp [xdmaMeaning, hlt, hk, hmt, List.getD_eq_getElem?_getD, ha]
+      rfl
+    · simp only [hmt]
+      exact zeros (Or.inr hmt)
 
-theorem xdmaBlock_aligned (cfg : List Streamer) (op : XdmaOp) (zlast : Bool) (x : Streamer × Nat)
-    (hx : cfg[x.2]? = some x.1) (hz : op.s.zero[x.2]? = some zlast) (hgen : op.kernel ≠ .notGeneric)
-    (r : List Val) (h : xdmaBlock op zlast x = .ok r) :
-    Aligned (xdmaMeaning cfg op) (xdmaBlockFields .fixed x) r := by
+theorem xdmaBlock_aligned (v : Variant) (cfg : List Streamer) (op : XdmaOp) (z : Bool) (x : Streamer × Nat)
+    (h14 : v.f14 = true)
+    (hx : cfg[x.2]? = some x.1) (hz : op.s.zero[x.2]? = some z)
+    (hgen : v.extCsrLen = true ∨ op.kernel ≠ .notGeneric)
+    (r : List Val) (h : xdmaBlock v op z x = .ok r) :
+    Aligned (xdmaMeaning cfg op) (xdmaBlockFields v x) r := by
   unfold xdmaBlock at h
   cases hp : op.s.pats[x.2]? with
   | none => simp [hp] at h
@@ -460,21 +492,19 @@ theorem xdmaBlock_aligned (cfg : List Streamer) (op : XdmaOp) (zlast : Bool) (x 
         injection h with h
         subst h
         unfold xdmaBlockFields
+        simp only [h14, if_true]
         refine Aligned.append (Aligned.append (Aligned.append (Aligned.append (Aligned.append (Aligned.append ?_ ?_) ?_) ?_) ?_) ?_) ?_
         · exact (sstride_aligned cfg op.s x.1 x.2 p hp ss hs).mono (xdma_extends cfg op)
         · exact (bound_aligned cfg op.s x.1 x.2 p hx hp).mono (xdma_extends cfg op)
         · exact (tstride_aligned cfg op.s x.1 x.2 p hp ts ht).mono (xdma_extends cfg op)
-        · simp only []
-          split
+        · split
           · apply Aligned.single; simp [xdmaMeaning, hz]; rfl
           · exact Aligned.nil
         · split
           · apply Aligned.single; simp [xdmaMeaning, hz]; rfl
           · exact Aligned.nil
         · apply Aligned.single; simp [xdmaMeaning, hx]; rfl
-        · exact flatMap_aligned _ _ _ (fun e _ => ext_aligned cfg op x.2 e hgen)
-
-
+        · exact flatMap_aligned _ _ _ (fun e _ => ext_aligned v cfg op x.2 e hgen)
 
 theorem xdmaPtr_ok (op : XdmaOp) (x : Streamer × Nat) (z : Bool) (h : xdmaPtr op x = .ok z) :
     op.s.zero[x.2]? = some z := by
@@ -486,6 +516,15 @@ theorem xdmaPtr_ok (op : XdmaOp) (x : Streamer × Nat) (z : Bool) (h : xdmaPtr o
 theorem zipIdx_lt {α} (l : List α) (x : α × Nat) (hx : x ∈ l.zipIdx) : x.2 < l.length := by
   have := List.mem_zipIdx_iff_getElem?.mp hx
   exact (List.getElem?_eq_some_iff.mp this).1
+
+/-- the first loop succeeded: every operand that belongs to a streamer exists -/
+theorem xdma_ptr_all (cfg : List Streamer) (op : XdmaOp) (zs : List Bool)
+    (hm : cfg.zipIdx.mapM (xdmaPtr op) = .ok zs) (x : Streamer × Nat) (hx : x ∈ cfg.zipIdx) :
+    ∃ z, op.s.zero[x.2]? = some z := by
+  obtain ⟨_, hall⟩ := mapM_ok_get _ _ hm
+  obtain ⟨i, hi⟩ := List.mem_iff_getElem?.mp hx
+  obtain ⟨r, _, hr2⟩ := hall i x hi
+  exact ⟨r, xdmaPtr_ok op x r hr2⟩
 
 theorem xdma_zs_uniform (cfg : List Streamer) (op : XdmaOp) (zs : List Bool) (b : Bool)
     (hm : cfg.zipIdx.mapM (xdmaPtr op) = .ok zs) (hzero : ∀ s, s < cfg.length → op.s.zero[s]? = some b) :
@@ -502,22 +541,23 @@ theorem xdma_zs_uniform (cfg : List Streamer) (op : XdmaOp) (zs : List Bool) (b 
   have h2 := hzero _ (zipIdx_lt cfg cfg.zipIdx[i] (List.mem_of_getElem? ha))
   rw [h1] at h2; exact Option.some.inj h2
 
-theorem xdmaVals_aligned (cfg : List Streamer) (op : XdmaOp) (vs : List Val) (h : xdmaVals cfg op = .ok vs)
-    (b : Bool) (hzero : ∀ s, s < cfg.length → op.s.zero[s]? = some b) (hgen : op.kernel ≠ .notGeneric) :
-    Aligned (xdmaMeaning cfg op) (xdmaFields .fixed cfg) vs := by
+theorem xdmaVals_aligned (v : Variant) (cfg : List Streamer) (op : XdmaOp) (vs : List Val)
+    (h : xdmaVals v cfg op = .ok vs) (h14 : v.f14 = true)
+    (hzero : v.zeroPerOperand = true ∨ ∃ b, ∀ s, s < cfg.length → op.s.zero[s]? = some b)
+    (hgen : v.extCsrLen = true ∨ op.kernel ≠ .notGeneric) :
+    Aligned (xdmaMeaning cfg op) (xdmaFields v cfg) vs := by
   unfold xdmaVals at h
   cases hm1 : cfg.zipIdx.mapM (xdmaPtr op) with
   | error e => simp [hm1] at h
   | ok zs =>
     simp only [hm1] at h
-    cases hm2 : cfg.zipIdx.mapM (xdmaBlock op (zs.getLast?.getD false)) with
+    cases hm2 : cfg.zipIdx.mapM (fun x => xdmaBlock v op (maskFlag v op (zs.getLast?.getD false) x) x) with
     | error e => simp [hm2] at h
     | ok bs =>
       simp only [hm2] at h
       injection h with h
       subst h
       unfold xdmaFields
-      have huni := xdma_zs_uniform cfg op zs b hm1 hzero
       have hlen := (mapM_ok_get _ _ hm1).1
       refine Aligned.append ?_ ?_
       · refine mapM_flat_aligned (fun x => [Field.ptrLow x.2, .ptrHigh x.2])
@@ -529,18 +569,25 @@ theorem xdmaVals_aligned (cfg : List Streamer) (op : XdmaOp) (vs : List Val) (h 
         | 0 => simp at hf hv; subst hf hv; simp [xdmaMeaning, streamMeaning, hz, ptrLow_den]
         | 1 => simp at hf hv; subst hf hv; rfl
         | (k + 2) => simp at hf
-      · refine mapM_flat_aligned (xdmaBlockFields .fixed) (·.2) _ _ hm2 (fun x hx r hr => ?_)
+      · refine mapM_flat_aligned (xdmaBlockFields v) (·.2) _ _ hm2 (fun x hx r hr => ?_)
         have hlt := zipIdx_lt cfg x hx
-        have hzl : zs.getLast?.getD false = b := by
-          cases hg : zs.getLast? with
-          | none =>
-            have : zs = [] := List.getLast?_eq_none_iff.mp hg
-            subst this; simp at hlen; omega
-          | some z => simp; exact huni z (List.mem_of_getLast? hg)
-        rw [hzl] at hr
-        exact xdmaBlock_aligned cfg op b x (List.mem_zipIdx_iff_getElem?.mp hx) (hzero x.2 hlt) hgen r hr
-
-
+        obtain ⟨z, hz⟩ := xdma_ptr_all cfg op zs hm1 x hx
+        have hflag : op.s.zero[x.2]? = some (maskFlag v op (zs.getLast?.getD false) x) := by
+          unfold maskFlag
+          by_cases hv : v.zeroPerOperand = true
+          · simp [hv, hz]
+          · rcases hzero with hzero | ⟨b, hzero⟩
+            · exact absurd hzero hv
+            · have huni := xdma_zs_uniform cfg op zs b hm1 hzero
+              have hzl : zs.getLast?.getD false = b := by
+                cases hg : zs.getLast? with
+                | none =>
+                  have : zs = [] := List.getLast?_eq_none_iff.mp hg
+                  subst this; simp at hlen; omega
+                | some z => simp; exact huni z (List.mem_of_getLast? hg)
+              simp only [hv, hzl]
+              exact hzero x.2 hlt
+        exact xdmaBlock_aligned v cfg op _ x h14 (List.mem_zipIdx_iff_getElem?.mp hx) hflag hgen r hr
 
 /-! ### snax_gemmx: kernel parameters (counts for the i8 branch, loop counts) -/
 
@@ -571,7 +618,8 @@ theorem gemmxParams_mac_inv (v : Variant) (n : Nat) (op : GemmxOp) (P : GParams)
       (op.i8out = true → ∃ sh, (chunks4 (effRescale n op).shifts).mapM packShiftChunk = .ok sh ∧
         P.shifts = sh.take (ceil4 n) ∧ P.mults = ((effRescale n op).mults.map Val.c).take n ∧
         P.tlb = .c P.m ∧ P.byp = .c 0 ∧ P.csr1 = .c (effRescale n op).dr ∧
-        P.csr0 = csr0Val (effRescale n op).minI (effRescale n op).maxI (effRescale n op).outZp (effRescale n op).inZp) := by
+        P.csr0 = csr0Val (effRescale n op).minI (effRescale n op).maxI (effRescale n op).outZp (effRescale n op).inZp ∧
+        P.attrs = launchAttrs n op sh.length (effRescale n op).mults.length P.m) := by
   unfold gemmxParams at h
   simp only [hk] at h
   split at h
@@ -590,7 +638,7 @@ theorem gemmxParams_mac_inv (v : Variant) (n : Nat) (op : GemmxOp) (P : GParams)
           · simp at h
           · next sh hsh =>
             injection h with h; subst h
-            exact ⟨rfl, hm, rfl, rfl, fun _ => ⟨sh, hsh, rfl, rfl, rfl, rfl, rfl, rfl⟩⟩
+            exact ⟨rfl, hm, rfl, rfl, fun _ => ⟨sh, hsh, rfl, rfl, rfl, rfl, rfl, rfl, rfl⟩⟩
         · next hi =>
           injection h with h; subst h
           exact ⟨rfl, hm, rfl, rfl, fun hh => absurd hh hi⟩
